@@ -394,7 +394,7 @@ def run(ctx, cases_override=None):
                         "o.pwm_agree": "pointwise_matrix models of Aggregates.v and MatOps2.v agree"}.get(x["op"], x["theorem"]) + " (oracle %s)" % x["op"]
     fails += fo
     # ---- Ruge-Stuben under a poisoning allocator (every allocation pre-filled with 0xFF): since /repo
-    #      commit 8cfa879 connect() writes every S.val cell, so the result must not depend on the fill
+    #      commit 7bd138f connect() writes every S.val cell, so the result must not depend on the fill
     #      (the model ignores its junk input: CoarsenProofs.rs_transfer_junk_independent).  Model first:
     #      cases where the C++ would index outside its arrays (MODEL-OOB) are not run.
     rsl = [l for l in exact if l.split(" ", 2)[1] in ("rs", "rs_cf") and l.endswith(" 0")]
